@@ -95,7 +95,7 @@ class C07(Prop):
         if op in ('coalesce', 'repartition'):
             return {'op': op, 'layout': layout, 'm': rng.randint(1 if op == 'coalesce' else 0, cur + 3)}
         if op == 'partitionBy':
-            f = rng.choice(['default', 'default', 'default', 'ident', 'len', 'const', 'identz', 'shift', 'negate'])
+            f = rng.choice(['default', 'default', 'default', 'ident', 'len', 'const', 'identz', 'shift', 'negate', 'kind'])
             pairs_layout = []
             for p in layout:
                 q = []
@@ -106,6 +106,9 @@ class C07(Prop):
                         k = rng.choice([-7, -4, -3, -2, -1, 0, 1, 2, 3, 5, 8])
                     elif f == 'len':
                         k = rng.choice(['', 'a', 'bb', 'ccc', 'dddd', (1,), (1, 2), ()])
+                    elif f == 'kind':
+                        # keys that are equal (one dict slot) but of different classes: the function is applied to EVERY key
+                        k = rng.choice([1, True, 0, False, 1, True, 'a', (1,), (True,), 2])
                     else:
                         k = gen_key(rng)
                     q.append(F.to_json((k, v)))
@@ -214,7 +217,9 @@ class C07(Prop):
                     impl = rdd.repartition(case['m']).glom().collect()
                 elif op == 'partitionBy':
                     f = {'default': None, 'ident': lambda k: k, 'len': len, 'const': lambda k: 5, 'identz': lambda k: k,
-                         'shift': lambda k: k - 3, 'negate': lambda k: -k}[case['f']]
+                         'shift': lambda k: k - 3, 'negate': lambda k: -k,
+                         'kind': lambda k: 1 if isinstance(k, bool) else 0 if isinstance(k, int) else 2 if isinstance(k, str)
+                         else 3 if isinstance(k, tuple) else 4}[case['f']]
                     impl = rdd.partitionBy(case['n'], f).glom().collect()
                 elif op == 'withIndex':
                     impl = rdd.mapPartitionsWithIndex(lambda i, it: [(i, list(it))]).glom().collect()
